@@ -28,7 +28,7 @@ ASSUMPTIONS = [
     "Python's own compile/eval is the evaluator.",
 ]
 BUDGET = {"quick": (4, 1500), "thorough": (16, 12000)}
-EXHAUSTIVE_NOTE = "name(5) x arity(0..3) x 9 syntactic positions x 3 sibling shortcuts, fully enumerated"
+EXHAUSTIVE_NOTE = "name(5) x arity(0..3) x 12 syntactic positions x 3 sibling shortcuts, fully enumerated"
 
 NAMES = ["len", "Count", "Sum", "Max", "Min"]
 
@@ -91,6 +91,7 @@ class SeqM(pyeval.Seq):
 def _env(data):
     env = {n: _mkfn(n) for n in NAMES}
     env["keep"] = lambda f, v: v
+    env["kw"] = lambda v, w=0: v
     env["o"] = _O()
     env["Select"] = lambda s, f: SeqM([f(x) for x in s])
     env["Where"] = lambda s, f: SeqM([x for x in s if f(x)])
@@ -127,7 +128,15 @@ def _expr(draw, ty, depth, ivars):
         b = draw(_expr("I", depth - 1, ivars))
         return f"({a} {draw(st.sampled_from(['>', '<', '==', '>=']))} {b})"
     # int
-    k = draw(st.integers(0, 2 if leaf else 11))
+    k = draw(st.integers(0, 2 if leaf else 15))
+    if k == 12:
+        return f"kw(w={draw(_expr('I', depth - 1, ivars))}, v={draw(_expr('I', depth - 1, ivars))})"
+    if k == 13:
+        return f"({draw(_expr('I', depth - 1, ivars))}, {draw(_expr('I', depth - 1, ivars))})[{draw(st.integers(0, 1))}]"
+    if k == 14:
+        return f"{{'a': {draw(_expr('I', depth - 1, ivars))}, 'b': {draw(_expr('I', depth - 1, ivars))}}}['{draw(st.sampled_from('ab'))}']"
+    if k == 15:
+        return f"[{draw(_expr('I', depth - 1, ivars))}, *{draw(_expr('S', depth - 1, ivars))}][0]"
     if k == 0:
         return str(draw(st.integers(-5, 9)))
     if k == 1:
@@ -185,6 +194,9 @@ def exhaustive(tier):
         "keep(Min, {X})",
         "Count([{X}, 1])",
         "({X} if {X} > 0 else o.Sum)",
+        "kw(w=1, v={X})",
+        "{'a': {X}}['a']",
+        "[*s1, {X}][0]",
     ]
     argsets = {0: "", 1: "{A}", 2: "{A}, n0", 3: "{A}, n0, 1"}
     inner = ["s0", "Select(s1, lambda v: Sum(s0))", "[Max(s0), len(s1)]"]
